@@ -16,14 +16,17 @@ LitN(dst, text) == [k |-> "lit",  dst |-> dst, pk |-> "", src |-> << >>, fn |-> 
 SrcPaths == { <<Step("A")>>, <<Step("A2")>>, <<Step("B")>>, <<Step("N")>>, <<Step("N"), Step("X")>>, <<Step("P"), Step("X")>>,
               <<Step("Z")>>, <<Step("Emb"), Step("Z")>>, <<Call("Gi")>>, <<Call("Gs")>>, <<Call("Gp")>>, <<Call("Ge")>>,
               <<Call("Gn"), Step("X")>>, <<Call("Gv")>>, <<Step("Nope")>>, <<Step("u")>>, <<Step("W")>>,
-              <<Step("D"), Step("In"), Step("Y")>>, <<Call("Ge"), Step("X")>>, <<Step("a")>> }
+              <<Step("D"), Step("In"), Step("Y")>>, <<Call("Ge"), Step("X")>>, <<Step("a")>>,
+              \* paths that leave the setup file's package: members the generated package cannot see, and one it can
+              <<Step("Q"), Step("w")>>, <<Step("Q"), Call("w2")>>, <<Step("H"), Step("In"), Step("w")>>, <<Step("H"), Step("In"), Step("V")>>,
+              <<Step("_")>> }
 ConvSrc  == { <<Step("A")>>, <<Step("B")>>, <<Step("N")>>, <<Step("N"), Step("X")>>, <<Call("Gi")>>, <<Call("Ge")>>, <<Step("Nope")>> }
 DollarPaths == { <<Dollar(1), Step("A")>>, <<Dollar(2)>>, <<Dollar(2), Step("X")>>, <<Dollar(3)>>, <<Dollar(9)>>, <<Dollar(2), Step("Nope")>> }
 ArgSets == { <<"int">>, <<"ArgS">>, <<"int", "string">> }
 
 \* ---- destination paths
 DstPaths(d) == PathsBelow(<< >>, d, 3)
-Targets(d) == {p \in DstPaths(d) : p \in {<<"A">>, <<"B">>, <<"C">>, <<"N">>, <<"N", "X">>, <<"S">>, <<"D", "K">>, <<"X", "X">>, <<"I", "Y">>, <<"Z">>, <<"H", "K">>, <<"D", "In", "X">>}}
+Targets(d) == {p \in DstPaths(d) : p \in {<<"A">>, <<"B">>, <<"C">>, <<"N">>, <<"N", "X">>, <<"S">>, <<"D", "K">>, <<"X", "X">>, <<"I", "Y">>, <<"Z">>, <<"H", "K">>, <<"D", "In", "X">>, <<"D", "In">>}}
           \cup {<<"Nowhere">>}                      \* a path that names nothing: inert
 LowerPath(p) == [i \in DOMAIN p |-> Lower(p[i])]
 
@@ -31,11 +34,15 @@ SkipNotes(d) == {SkipN("exact", p) : p \in DstPaths(d)} \cup {SkipN("exact", Low
                 \cup {SkipN("prefix", <<"N">>), SkipN("prefix", <<"n">>), SkipN("suffix", <<"X">>), SkipN("suffix", <<"a">>), SkipN("exact", <<"Nowhere">>),
                  \* patterns that also match members the generated package cannot see (they must stay unmentioned)
                  SkipN("suffix", <<"y">>), SkipN("suffix", <<"s">>), SkipN("suffix", <<"w">>), SkipN("prefix", <<"X">>), SkipN("prefix", <<"H">>)}
-MapNotes(d)  == {MapN(s, p) : s \in SrcPaths, p \in Targets(d)}
+\* :map / :conv / :literal name their destination exactly, whatever the case rule: a path that differs in case names nothing
+CaseVariants(d) == {LowerPath(p) : p \in Targets(d) \cap {<<"A">>, <<"N", "X">>, <<"D", "K">>}}
+MapNotes(d)  == {MapN(s, p) : s \in SrcPaths, p \in Targets(d)} \cup {MapN(<<Step("A2")>>, p) : p \in CaseVariants(d)}
 ConvNotes(d) == {ConvN(f, s, p) : f \in DOMAIN WFuncs, s \in ConvSrc, p \in Targets(d) \ {<<"Nowhere">>, <<"I", "Y">>, <<"Z">>}}
+                \cup {ConvN("CvII", <<Step("A2")>>, p) : p \in CaseVariants(d)}
 \* literal text is the user's responsibility (garbage belongs to C14): only literals that are well typed for the target
-LitFor(t) == CASE t = "int" -> {"7", "1+2"} [] t = "string" -> {"\"lit\""} [] t = "bool" -> {"true"} [] t = "NONE" -> {"7"} [] OTHER -> {}
+LitFor(t) == CASE t = "int" -> {"7", "1+2"} [] t = "string" -> {"\"lit\""} [] t = "bool" -> {"true"} [] t = "NONE" -> {"7"} [] t = "NIn" -> {"NIn{X: 7}"} [] OTHER -> {}
 LitNotes(d)  == UNION {{LitN(p, t) : t \in LitFor(TypeAt(d, p))} : p \in Targets(d) \cup {<<"N", "W">>}}
+                \cup {LitN(p, "7") : p \in CaseVariants(d)}
 DollarNotes(d) == {MapN(s, p) : s \in DollarPaths, p \in Targets(d) \cap {<<"A">>, <<"C">>, <<"N", "X">>, <<"S">>}}
 
 \* a few notations per root for the interaction pairs
@@ -43,7 +50,9 @@ Small(d) == {MapN(<<Step("A2")>>, <<"A">>), MapN(<<Step("A2")>>, <<"C">>), MapN(
              ConvN("CvII", <<Step("A")>>, <<"A">>), ConvN("CvII", <<Step("A")>>, <<"N", "X">>), ConvN("CvIE", <<Step("A")>>, <<"C">>),
              LitN(<<"A">>, "7"), LitN(<<"N", "X">>, "7"), MapN(<<Step("N")>>, <<"N">>), ConvN("CvNN", <<Step("N")>>, <<"N">>),
              LitN(<<"D", "K">>, "7"), MapN(<<Dollar(2)>>, <<"N", "X">>), MapN(<<Step("A2")>>, <<"D", "In", "X">>),
-             MapN(<<Dollar(2)>>, <<"D", "In", "X">>)}
+             MapN(<<Dollar(2)>>, <<"D", "In", "X">>),
+             \* a struct-typed member below a struct that is copyable as a whole
+             MapN(<<Step("N")>>, <<"D", "In">>), ConvN("CvNIn", <<Step("N")>>, <<"D", "In">>)}
 Parent(p) == SubSeq(p, 1, Len(p) - 1)
 PairNotes(d) == UNION {{<<SkipN("exact", q), n>> : q \in {n.dst, Parent(n.dst)} \ {<< >>}} : n \in Small(d)}
            \cup {<<n, SkipN("exact", n.dst)>> : n \in Small(d)}
